@@ -467,3 +467,37 @@ def must_pass(stmts, pred_call, exits=("fall", "return")) -> Tuple[bool, Outcome
     o = count_paths(stmts, calls_hit(pred_call))
     ok = all(o.k[k][0] >= 1 for k in exits if k in o.k)
     return ok, o
+
+
+# ---------------------------------------------------------------------------
+# leaf paths of an if-tree
+# ---------------------------------------------------------------------------
+def if_paths(stmts: List[ast.stmt], facts=()) -> List[Tuple[List[Tuple[ast.AST, bool]], str, Optional[ast.stmt]]]:
+    """Every path through a block made of if-trees and straight-line code:
+    (atomic facts along the path, exit kind, exit statement) with exit kind in
+    fall/return/continue/break/raise.  Loops / try inside the block are opaque
+    (treated as straight-line); the caller restricts itself to loop bodies
+    whose decisions are plain ifs."""
+    out = []
+
+    def seq(stmts, facts):
+        if not stmts:
+            out.append((list(facts), "fall", None))
+            return
+        st, rest = stmts[0], stmts[1:]
+        if isinstance(st, ast.Return):
+            out.append((list(facts), "return", st))
+        elif isinstance(st, ast.Continue):
+            out.append((list(facts), "continue", st))
+        elif isinstance(st, ast.Break):
+            out.append((list(facts), "break", st))
+        elif isinstance(st, ast.Raise):
+            out.append((list(facts), "raise", st))
+        elif isinstance(st, ast.If):
+            for pol, body in ((True, st.body), (False, st.orelse)):
+                seq(list(body) + list(rest), list(facts) + conjuncts(st.test, pol))
+        else:
+            seq(rest, facts)
+
+    seq(list(stmts), list(facts))
+    return out
